@@ -40,6 +40,7 @@ func main() {
 				runHetero(n, arg)
 				if k < nargs/5 {
 					runRoundTrip(n, k%2, arg)
+					runZero(n, k%4, arg)
 				}
 			}
 			coef := make([]uint64, 2*n)
@@ -477,6 +478,46 @@ func runRoundTrip(n, pat int, arg string) {
 	for i, k := range calls {
 		if k != 1 {
 			rec.Violate(fmt.Sprintf("C20/Pipe%d/calls", n), fmt.Sprintf("round trip: f_%d applied %d times (calls %v)", i+1, k, calls), c)
+		}
+	}
+}
+
+// runZero: pipelines with zero-size argument, intermediate or result types (stages run for their effect). The same
+// composed function is called several times: on every call every stage is applied once, in order.
+func runZero(n, pat int, arg string) {
+	c := caseT{Family: fmt.Sprint("zero-size/", pat), N: n, Arg: arg}
+	calls := make([]int, n)
+	var order []int
+	hit := func(i int, in string) string { calls[i]++; order = append(order, i); return in + fmt.Sprintf("[%d]", i) }
+	var f func(string) string
+	if p := common.Catch(func() { f = composeZ(n, pat, hit) }); p != nil {
+		rec.Violate(fmt.Sprintf("C20/Pipe%d/panic", n), fmt.Sprint(p), c)
+		return
+	}
+	rec.Eval(fmt.Sprint("z", n, pat, arg), true)
+	for call, a := range []string{arg, arg + "x", arg} {
+		order = order[:0]
+		var got string
+		p := common.Catch(func() { got = f(a) })
+		want := a
+		for i := 0; i < n; i++ {
+			want += fmt.Sprintf("[%d]", i)
+		}
+		rec.Count("function_applications_observed", int64(len(order)))
+		if p != nil {
+			rec.Violate(fmt.Sprintf("C20/Pipe%d/panic", n), fmt.Sprintf("call #%d: %v", call+1, p), c)
+			return
+		}
+		what := []string{"zero-size argument type", "zero-size type between two stages", "zero-size types throughout", "zero-size result type"}[pat]
+		if got != want {
+			rec.Violate(fmt.Sprintf("C20/Pipe%d/result", n), fmt.Sprintf("%s, call #%d of the same composed function: got %q want %q; stages applied %v", what, call+1, got, want, order), c)
+			return
+		}
+		for i, k := range calls {
+			if k != call+1 {
+				rec.Violate(fmt.Sprintf("C20/Pipe%d/calls", n), fmt.Sprintf("%s: after %d calls f_%d was applied %d times (stages applied by the last call: %v)", what, call+1, i+1, k, order), c)
+				return
+			}
 		}
 	}
 }
